@@ -22,6 +22,21 @@ Theorem C16_ignored_inert : forall cfg user send_ok st a m,
 Proof. exact ignored_inert. Qed.
 Print Assumptions C16_ignored_inert.
 
+(* ... over whole histories: an ignored message may be inserted anywhere in a history (after any prefix
+   h1, in the state that prefix leads to) or removed from it: the same state is reached and the same
+   effects are emitted, before it and after it; only the record of its arrival differs *)
+From Portus Require Import RunTrace IgnoreFacts.
+Theorem C16_ignored_message_is_transparent : forall cfg user send_ok h1 h2 st st1 t1 a m,
+  trace cfg user send_ok st h1 = Some (st1, t1) -> ignored st1 a m ->
+  match trace cfg user send_ok st (h1 ++ h2), trace cfg user send_ok st (h1 ++ (a, m) :: h2) with
+  | Some (s, t), Some (s', t') => s' = s /\ outs t' = outs t /\
+                                  exists t2, t = t1 ++ t2 /\ t' = t1 ++ TIn a m :: t2
+  | None, None => True
+  | _, _ => False
+  end.
+Proof. exact ignored_message_is_transparent. Qed.
+Print Assumptions C16_ignored_message_is_transparent.
+
 (* translator obligations (lib/gen_statespace.py reads the structs, statics and mutable bindings of the
    modelled code on every run): the code has the state the model represents and no other *)
 From Portus Require Import StateTie.
